@@ -6,6 +6,7 @@
 //   m.ext  <hexmanifest> <hexsrc> <hexreloc>   Extract(src, reloc)
 //   m.fb   <o0,o1,...> <start>           firstBlock(offsets, start)
 //   m.esc  <hexname>                     EscapeName / UnescapeName
+//   m.fix  <hexpath>                     fixStreamName (path.Clean) and splitPath
 //
 // A panic inside one of the package's goroutines kills the process; check.py (driver marked
 // "isolate") then re-runs the shard case by case and records CRASH for the culprit.
@@ -125,6 +126,13 @@ func verifC10Case(line string) (out string) {
 			return "bad-op"
 		}
 		return strconv.Itoa(firstBlock(offs, start))
+	case f[0] == "m.fix" && len(f) == 2:
+		n, ok := verifC10Unhex(f[1])
+		if !ok {
+			return "bad-op"
+		}
+		sn, fn := splitPath(n)
+		return verifC10Hex(fixStreamName(n)) + " " + verifC10Hex(sn) + " " + verifC10Hex(fn)
 	case f[0] == "m.esc" && len(f) == 2:
 		n, ok := verifC10Unhex(f[1])
 		if !ok {
